@@ -893,6 +893,45 @@ fn rejected_jump_falls_through(p: &str) -> String {
         visits[3] > 0 || visits[8] > 0, visits[3], ok, err, hex(&code))
 }
 
+/// A jump (JUMP, and JUMPI with a non-zero condition) whose target is a 0x5b byte inside a PUSH that the end of the code
+/// cuts short: the byte is push data, the EVM rejects the jump.
+fn jump_into_truncated_push(_p: &str) -> String {
+    let mut bad = Vec::new();
+    for code in [vec![0x60u8, 0x04, 0x56, 0x61, 0x5b], vec![0x60, 0x01, 0x60, 0x07, 0x57, 0x00, 0x62, 0x5b, 0x5b]] {
+        let (ok, err, _) = run_vm_cfg(&code, Config::default());
+        if ok || !(err.contains("InvalidJumpTarget") || err.contains("NonExistentJumpTarget")) {
+            bad.push(format!("code {}: strict execute ok={ok} error={}", hex(&code), err.chars().take(100).collect::<String>()));
+        }
+    }
+    format!("{{\"violates\": {}, \"problems\": \"{}\"}}", !bad.is_empty(), bad.join("; "))
+}
+
+/// PUSH1 4 JUMP INVALID JUMPDEST STOP: the path executes offsets 0, 2 and 5 (the machine steps past the JUMPDEST it lands
+/// on).  With a gas limit one below the sum of their
+/// minimum costs the run must fail with GasLimitExceeded; with the sum itself it must succeed.
+fn jump_gas(_p: &str) -> String {
+    let code = [0x60u8, 0x04, 0x56, 0xfe, 0x5b, 0x00];
+    let stream = InstructionStream::try_from(code.as_slice()).expect("disassembles");
+    let t = stream.new_thread(0).expect("thread");
+    let total: usize = [0u32, 2, 5].iter().map(|o| t.instruction(*o).expect("entry").min_gas_cost()).sum();
+    let run = |limit: usize| {
+        let mut config = Config::default();
+        config.gas_limit = limit;
+        let (ok, err, _) = run_vm_cfg(&code, config);
+        (ok, err)
+    };
+    let (ok_below, err_below) = run(total - 1);
+    let (ok_at, _) = run(total);
+    let mut threshold = 0usize;
+    while threshold < 64 && !run(threshold).0 {
+        threshold += 1;
+    }
+    let violates = ok_below || !err_below.contains("GasLimitExceeded") || !ok_at;
+    let err_below = format!("smallest passing limit {threshold}; {err_below}");
+    format!("{{\"violates\": {}, \"cost_of_path\": {}, \"ok_with_limit_below\": {}, \"ok_with_limit_equal\": {}, \"error_below\": \"{}\"}}",
+        violates, total, ok_below, ok_at, err_below.chars().take(120).collect::<String>())
+}
+
 /// VMThread::fork must carry the gas already consumed over to the new thread and start it at the target, for every
 /// target inside the code (the last byte included).
 fn fork_gas(_p: &str) -> String {
@@ -1474,6 +1513,8 @@ fn main() {
         "error_kind" => error_kind(&p),
         "rejected_jump_falls_through" => rejected_jump_falls_through(&p),
         "fork_gas" => fork_gas(&p),
+        "jump_gas" => jump_gas(&p),
+        "jump_into_truncated_push" => jump_into_truncated_push(&p),
         "fork_budget" => fork_budget(&p),
         "jump_loop_visits" => jump_loop_visits(&p),
         "forest_step" => forest_step(&p),
